@@ -477,6 +477,12 @@ class Engine:
             elif not any(isinstance(exc, self.EXC[n]) for n in exp[1]):
                 self.report(S, op, "wrong-error", f"expected {sorted(exp[1])}, got {type(exc).__name__}: {exc}",
                             expected=sorted(exp[1]), exc=type(exc).__name__)
+            elif type(exc).__module__.startswith("term_image") and not isinstance(exc, self.T.RenderArgsError):
+                # the documented errors of render-argument sets all belong to the documented RenderArgsError
+                # family (`except RenderArgsError` is how a caller handles a rejected set)
+                self.report(S, op, "wrong-error-family", f"{type(exc).__name__} raised for a rejected set is not a "
+                            f"RenderArgsError (bases: {[k.__name__ for k in type(exc).__mro__[1:4]]})",
+                            exc=type(exc).__name__)
             return None, new_imap
         want = exp[1]
         if exc is not None:
